@@ -787,6 +787,38 @@ fn bit_write(s: &S11, e: En, ops: &[BitOp], ctx: &mut Ctx) {
             if class == "faultfree" {
                 ctx.fail("C11.spurious_error", format!("final flush failed: {}", er));
             }
+            // the sink's own flush failed after every byte had been accepted (direct wrap,
+            // no failed or short-circuited write before): the caller is expected to flush
+            // again; if that succeeds the device holds the stream exactly once
+            let sink_flush_failed = {
+                let d = sh.borrow();
+                s.wrap == Wrap::Direct
+                    && matches!(d.log.last(), Some(ev) if ev.op == DiskOp::Flush && ev.res.is_err())
+                    && !d.log.iter().any(|ev| ev.op == DiskOp::Write && ev.res.is_err())
+            };
+            if sink_flush_failed && !ctx.failed() {
+                ctx.step(tags(s, "flush_retried_after_sink_flush_error"));
+                match guard(|| w.flush()) {
+                    Ok(Ok(_)) => {
+                        ctx.probe("c11.flush_retried_after_sink_flush_error");
+                        model.pad_to_multiple(s.word.bits());
+                        let exp = model.to_bytes(e);
+                        let got = sh.borrow().data.clone();
+                        ctx.ev_bytes(&got);
+                        if got != exp {
+                            ctx.fail(
+                                "C11.bytes_duplicated",
+                                format!(
+                                    "the sink's flush failed once after all bytes had been accepted; the retried flush returned Ok and the device holds {:02x?}, memory image is {:02x?}",
+                                    got, exp
+                                ),
+                            );
+                        }
+                    }
+                    Ok(Err(_)) => {}
+                    Err(p) => ctx.fail("C11.panic", format!("retried flush panicked: {}", p)),
+                }
+            }
         }
     }
     harvest_faults(ctx, &sh.borrow());
@@ -1151,6 +1183,7 @@ impl Family for C11 {
 
     fn required_probes(_t: Tier) -> Vec<&'static str> {
         vec![
+            "c11.flush_retried_after_sink_flush_error",
             "c11.writer_created_at_nonzero_offset",
             "c11.word_pos_after_write_error",
             "c11.word_pos_after_read_error",
